@@ -26,6 +26,8 @@ OBLIGATIONS = [NS + t for t in [
     "repo_conv_img_is_circular_convolution", "unit_psf_returns_intrinsic", "pixel_scene_is_convolution",
 ]] + ["Pysersic.Props.C09.synth_shift", "Pysersic.Props.C09.pointsource_translate", "Pysersic.Render.convImg_add",
       "Pysersic.Render.convImg_smul"]
+# kernels whose translated source text (Gen/Kernels.lean) is proved equal to the model kernel this property's theorems are about
+GEN_KERNELS = ["render_pointsource_fourier", "render_gaussian_fourier_term"]
 MIRRORED_FILES = ["pysersic/rendering.py"]
 ASSUMPTIONS = [
     "the convolution theorem is proved for odd stamps with π in the ramps (Proofs/RenderConv.lean); for even-sized stamps (half-pixel Fourier shift) the pipeline is validated numerically by the tie (1e-9) and the oracle only",
